@@ -42,6 +42,7 @@ CHECKS = {
         'harnesses': [
             {'name': 'Harness_C09_assertion', 'pkg': 'saml', 'replay': 'direct', 'must_reach': ['returned'],
              'opts': {'time_res': 1000000, 'panic_is_violation': True}, 'quick': {'K': 2}, 'thorough': {'K': 3}},
+            {'name': 'Harness_C09_flate', 'pkg': 'saml', 'replay': 'direct', 'must_reach': ['read', 'refused']},
             {'name': 'Harness_C09_idpvalidate', 'pkg': 'saml', 'replay': 'direct', 'must_reach': ['returned'],
              'opts': {'time_res': 1000000, 'panic_is_violation': True}, 'quick': {'K': 1}, 'thorough': {'K': 2}},
         ],
@@ -78,6 +79,15 @@ CHECKS = {
             {'name': 'Harness_C14_endpoint', 'pkg': 'saml', 'replay': 'direct', 'must_reach': ['accepted', 'rejected', 'accepted-known-binding'],
              'validate_labels': ['accepted', 'accepted-known-binding']},
             {'name': 'Harness_C14_indexed', 'pkg': 'saml', 'replay': 'direct', 'must_reach': ['accepted', 'rejected'], 'validate_labels': ['accepted']},
+        ],
+    },
+    'C08': {
+        'level_text': 'z3/path enumeration decides, for every layout of <=2 (quick) / <=3 (thorough) key descriptors x <=2 certificates (Use encryption/signing/omitted/other, arbitrary/empty/real certificate texts), that the encryption-certificate selector reports "no key" exactly when none is advertised, never panics and never turns a bad certificate into "no key"; replayed natively with real certificates.',
+        'level_note': 'real getSPEncryptionCert executed from SSA; base64 decode and x509.ParseCertificate are contract stubs (fail or opaque certificate; exact on the two real test certificates); at most one descriptor with use="encryption" (several are ambiguous: outside). The MakeAssertionEl / xmlenc halves are covered where registered below.',
+        'harnesses': [
+            {'name': 'Harness_C08_certselect', 'pkg': 'saml', 'replay': 'direct', 'must_reach': ['returned', 'advertised', 'nothing-advertised', 'real-cert-selected'],
+             'opts': {'panic_is_violation': True}, 'validate_labels': ['nothing-advertised', 'real-cert-selected'],
+             'quick': {'params': {'kd.max': 2}}, 'thorough': {'params': {'kd.max': 3}}, 'budget_s': {'quick': 600, 'thorough': 3000}},
         ],
     },
     'C10': {
